@@ -140,10 +140,11 @@ class Scale(EnvironmentFilter):
 
         #get the potential keys to scale
         potential_keys = None
+        first_known = lambda values: next((v for v in values if v is not None),None)
         if is_dense_context:
-            potential_keys = [i for i,v in enumerate(first_context) if isinstance(v,(int,float))]
+            potential_keys = [i for i in range(len(first_context)) if isinstance(first_known(c[i] for c in fitting_contexts),(int,float))]
         if is_sparse_context:
-            unscalable_cols = {k for k,v in first_context.items() if not isinstance(v,(int,float))}
+            unscalable_cols = {k for k in first_context.keys() if not isinstance(first_known(c[k] for c in fitting_contexts if k in c),(int,float))}
             potential_keys  = set().union(*map(methodcaller("keys"),fitting_contexts)) - unscalable_cols
         if is_value_context:
             potential_keys = [0]
